@@ -6,6 +6,7 @@ import (
 	"go/types"
 
 	"github.com/go-critic/go-critic/checkers/internal/astwalk"
+	"github.com/go-critic/go-critic/checkers/internal/lintutil"
 	"github.com/go-critic/go-critic/linter"
 
 	"github.com/go-toolsmith/astequal"
@@ -88,13 +89,29 @@ func (c *dupSubExprChecker) checkBinaryExpr(expr *ast.BinaryExpr) {
 	if c.resultIsFloat(expr.X) && c.floatOpsSet[expr.Op] {
 		return
 	}
+	if c.makesNewValue(expr.X) {
+		// &T{} != &T{}: every evaluation yields a distinct value.
+		return
+	}
 	if typep.SideEffectFree(c.ctx.TypesInfo, expr) && c.opSet[expr.Op] && astequal.Expr(expr.X, expr.Y) {
 		c.warn(expr)
 	}
 }
 
+// makesNewValue reports whether expr contains a composite or function literal,
+// which produce a new (distinct) value every time they are evaluated.
+func (c *dupSubExprChecker) makesNewValue(expr ast.Expr) bool {
+	return lintutil.ContainsNode(expr, func(n ast.Node) bool {
+		switch n.(type) {
+		case *ast.CompositeLit, *ast.FuncLit:
+			return true
+		}
+		return false
+	})
+}
+
 func (c *dupSubExprChecker) resultIsFloat(expr ast.Expr) bool {
-	typ, ok := c.ctx.TypeOf(expr).(*types.Basic)
+	typ, ok := c.ctx.TypeOf(expr).Underlying().(*types.Basic)
 	return ok && typ.Info()&types.IsFloat != 0
 }
 
